@@ -35,6 +35,11 @@ RULE = ('a rules or views file is generated with one failing expression site (ma
         'MerchantEngine.match, normalize_merchant, parse_generic_csv, classify_merchants and one `tally up`.  distinct_nontrivial counts distinct '
         '(site, injected|natural failure class, position of the failing rule relative to the winner: before/winner/after/none) tuples that fired.')
 
+# they bind a walrus / loop name that other rules read as a primitive, variable or let binding - and then fail
+BINDING_TXN = ['(amount := description) > 5', '(is_large := 5) and field.nosuch == 1', '(lv := 1) and description + 1 == 2',
+               'len([month for month in orders if month.item + 1]) > 0', 'any(description.nosuch for description in orders)',
+               '(source := 7) and contains(source)', 'next(amount for amount in orders if amount.nosuch)',
+               '(big := "x") and big > 5']
 NATURAL_TXN = [
     'amount > "100"', 'contains(5)', 'len(amount) > 1', 'description + 1', 'abs(description) > 1', 'date > 5',
     'regex("(")', 'regex_replace(description, "(", "") == "x"', 'field.nosuch == "x"', 'nosuchvar > 1',
@@ -101,9 +106,20 @@ def gen_case(rng, tier):
         r = m['rules'][k]
         good_value = rng.choice(['uppercase(description)', 'amount * 2', 'extract("r(\\\\d+)")'])
         bad = rng.choice(NATURAL_TXN) if site in ('match', 'variable') else rng.choice(NATURAL_VALUE + NATURAL_TXN[:6])
+        if rng.random() < 0.35:
+            bad = rng.choice(BINDING_TXN)
         if site == 'match':
             expr = r['match'] if injected else bad
             r['match'] = expr
+            if expr in BINDING_TXN:
+                # the failing rule goes first; rules after it read the names it bound before failing
+                m['rules'].remove(r)
+                m['rules'].insert(0, r)
+                k = 0
+                for other in m['rules'][1:]:
+                    if rng.random() < 0.6:
+                        other['match'] = rng.choice(['amount > 10', 'contains("%s") and amount > 1' % rng.choice(words), 'month >= 1',
+                                                     'source == "Card" or source == "Bank"', 'contains(description)'])
         elif site == 'let':
             expr = 'amount * 2' if injected else bad
             r['lets'] = [['lv', expr]]
